@@ -184,6 +184,15 @@ class PriorityLock(Lock, BasePriorityObject, LockHelper):
                 self._waiters.remove(entry)
                 if not self._locked:
                     self._wake_up_first()
+                else:
+                    # a waiter has left: the owner may have become less urgent.
+                    # Let it re-key its own entry in the lock it is waiting for.
+                    owning = self._owning() if self._owning is not None else None
+                    if owning is not None and owning is not task:
+                        try:
+                            owning.propagate_priority(self)  # type: ignore[attr-defined]
+                        except AttributeError:  # pragma: no cover
+                            pass
 
     def _take_lock(self, task: TaskAny) -> None:
         assert self._owning is None
